@@ -85,6 +85,11 @@ inductive Act where
   | cas (k old new : Nat)
   | credit (fx other : Nat) (to : Addr)
   | setCustom (url : Ty) (c : Option Custom)
+  /-- `MsgDeposit{depositor: the gov module account}` on proposal `pid` — only a message of a passed proposal can carry it
+  (its signer is the gov account) -/
+  | govDeposit (pid amt : Nat)
+  /-- `MsgSubmitProposal{proposer: the gov module account}` with an initial deposit, no messages of its own -/
+  | govSubmit (initial : Nat) (expedited : Bool)
   deriving Repr, DecidableEq
 
 structure Msg where
@@ -604,66 +609,6 @@ def chargeLoop (rate : Nat) : List Dep → Nat → List (Addr × Nat) → Option
     | some (g', b', c) => some (g', b', c + (d.amt - keep))
     | none => none
 
-/-! ## proposal messages -/
-
-def getKv (kv : List (Nat × Nat)) (k : Nat) : Nat :=
-  match kv with
-  | [] => 0
-  | (x, v) :: r => if x == k then v else getKv r k
-
-def setKv (kv : List (Nat × Nat)) (k v : Nat) : List (Nat × Nat) :=
-  match kv with
-  | [] => [(k, v)]
-  | (x, w) :: r => if x == k then (x, v) :: r else (x, w) :: setKv r k v
-
-/-- one handler call on the (cached) state; `none` = the handler returned an error or panicked -/
-def execMsg (m : Msg) (s : State) : Option State :=
-  if !m.ok then none else
-  match m.act with
-  | .noop => some s
-  | .cas k old new => if getKv s.kv k == old then some { s with kv := setKv s.kv k new } else none
-  | .credit fx _ to => some { s with bal := credit s.bal to fx, credited := s.credited + fx }
-  | .setCustom url c =>
-    match c with
-    | none => some { s with custom := eraseCustom s.custom url }
-    | some c => if c.valid then some { s with custom := setCustom s.custom url c } else none
-
-/-- the message loop on `cacheCtx`: stops at the first failure -/
-def execMsgs : List Msg → State → Option State
-  | [], s => some s
-  | m :: r, s =>
-    match execMsg m s with
-    | some s' => execMsgs r s'
-    | none => none
-
-/-- the loop as far as it gets: the state after the messages that succeeded before the first failure -/
-def execPrefix : List Msg → State → State
-  | [], s => s
-  | m :: r, s =>
-    match execMsg m s with
-    | some s' => execPrefix r s'
-    | none => s
-
-/-- the `passes` case of the end-blocker: `writeCache()` only when every handler succeeded -/
-def runProposalMsgs (msgs : List Msg) (s : State) : State × Bool :=
-  if execInCacheCtx then
-    if execErrVisible then
-      match execMsgs msgs s with
-      | some s' => (s', true)
-      | none => (s, false)
-    else
-      -- the test after the loop does not see the handler's error: whatever ran is written, the proposal "passed"
-      (execPrefix msgs s, true)
-  else
-    -- no cache: the writes of the messages before the failing one stay
-    let rec go : List Msg → State → State × Bool
-      | [], s => (s, true)
-      | m :: r, s =>
-        match execMsg m s with
-        | some s' => go r s'
-        | none => (s, false)
-    go msgs s
-
 /-! ## message server -/
 
 /-- the time under which `ActivateVotingPeriod` enters the proposal into the active queue: the voting end it stores
@@ -837,6 +782,112 @@ def depositX (s : State) (pid : Nat) (who : Addr) (fx other : Nat) : Except Stri
   match findProp s.props pid with
   | none => .error "err:notfound"
   | some p => if !(p.status == .deposit || p.status == .voting) then .error "err:inactive" else .error "err:denom"
+
+/-! ## the gov module account as depositor (round 4, fix 45d0bc2)
+
+The gov module account holds the deposits in escrow.  A message of a passed proposal can name it as depositor
+(`MsgDeposit`) or proposer (`MsgSubmitProposal`): `SendCoinsFromAccountToModule(gov account → gov module)` moves nothing,
+but the total grows and a deposit record is written.  `AddDeposit` refuses it with a guard — regenerated as the tag
+`depositorNotModule:gov`; what matters is that it stands BEFORE the first write (`sendCoins`). -/
+
+/-- the model address of the gov module account (no tracked account has it) -/
+def govAcct : Addr := 1000000
+
+/-- `AddDeposit` refuses the gov module account before anything is written (read off the regenerated statement list) -/
+def depositGuardsModule : Bool :=
+  (addDepositSteps.takeWhile (fun t => t != "sendCoins")).contains "depositorNotModule:gov"
+
+/-- what `AddDeposit(pid, gov module account, amt)` writes when NO guard refuses it: no coins move (the transfer is gov → gov
+and only needs the balance to cover it), the total grows, the activation test runs, a deposit record is written -/
+def addDepositGovUnguarded (s : State) (pid amt : Nat) : Option State :=
+  match findProp s.props pid with
+  | none => none
+  | some p =>
+    if !(p.status == .deposit || p.status == .voting) then none else
+    if tooSmall s p amt then none else
+    if s.gov < amt then none else
+    let p1 := { p with total := p.total + amt }
+    let s1 := { s with props := putProp s.props p1 }
+    let s2 := if p1.status == .deposit && reaches p1.total (minForMsgs s.custom (defaultMin s p.expedited) p1.msgs)
+              then activateRun s1 p1 else s1
+    some { s2 with deps := addDep s2.deps pid govAcct amt, paid := s2.paid ++ [⟨pid, govAcct, amt⟩] }
+
+/-- `AddDeposit` with the gov module account as depositor: `none` = the message fails -/
+def addDepositGov (s : State) (pid amt : Nat) : Option State :=
+  if depositGuardsModule then none else
+  if amt == 0 then none else addDepositGovUnguarded s pid amt
+
+/-- `MsgSubmitProposal` with the gov module account as proposer (no messages, metadata only): the SDK's `SubmitProposal`,
+then `AddDeposit` of the initial deposit from the gov account -/
+def submitGov (s : State) (initial : Nat) (expedited : Bool) : Option State :=
+  if depositGuardsModule then none else
+  if s.params.minInitialDepositRatio != 0 &&
+      (initial == 0 || initial < mulRound (defaultMin s expedited) s.params.minInitialDepositRatio) then none else
+  match sdkSubmitRun s govAcct [] expedited with
+  | .error _ => none
+  | .ok (s1, id) => addDepositGovUnguarded s1 id initial
+
+/-! ## proposal messages -/
+
+def getKv (kv : List (Nat × Nat)) (k : Nat) : Nat :=
+  match kv with
+  | [] => 0
+  | (x, v) :: r => if x == k then v else getKv r k
+
+def setKv (kv : List (Nat × Nat)) (k v : Nat) : List (Nat × Nat) :=
+  match kv with
+  | [] => [(k, v)]
+  | (x, w) :: r => if x == k then (x, v) :: r else (x, w) :: setKv r k v
+
+/-- one handler call on the (cached) state; `none` = the handler returned an error or panicked -/
+def execMsg (m : Msg) (s : State) : Option State :=
+  if !m.ok then none else
+  match m.act with
+  | .noop => some s
+  | .cas k old new => if getKv s.kv k == old then some { s with kv := setKv s.kv k new } else none
+  | .credit fx _ to => some { s with bal := credit s.bal to fx, credited := s.credited + fx }
+  | .setCustom url c =>
+    match c with
+    | none => some { s with custom := eraseCustom s.custom url }
+    | some c => if c.valid then some { s with custom := setCustom s.custom url c } else none
+  | .govDeposit pid amt => addDepositGov s pid amt
+  | .govSubmit initial expedited => submitGov s initial expedited
+
+/-- the message loop on `cacheCtx`: stops at the first failure -/
+def execMsgs : List Msg → State → Option State
+  | [], s => some s
+  | m :: r, s =>
+    match execMsg m s with
+    | some s' => execMsgs r s'
+    | none => none
+
+/-- the loop as far as it gets: the state after the messages that succeeded before the first failure -/
+def execPrefix : List Msg → State → State
+  | [], s => s
+  | m :: r, s =>
+    match execMsg m s with
+    | some s' => execPrefix r s'
+    | none => s
+
+/-- the `passes` case of the end-blocker: `writeCache()` only when every handler succeeded -/
+def runProposalMsgs (msgs : List Msg) (s : State) : State × Bool :=
+  if execInCacheCtx then
+    if execErrVisible then
+      match execMsgs msgs s with
+      | some s' => (s', true)
+      | none => (s, false)
+    else
+      -- the test after the loop does not see the handler's error: whatever ran is written, the proposal "passed"
+      (execPrefix msgs s, true)
+  else
+    -- no cache: the writes of the messages before the failing one stay
+    let rec go : List Msg → State → State × Bool
+      | [], s => (s, true)
+      | m :: r, s =>
+        match execMsg m s with
+        | some s' => go r s'
+        | none => (s, false)
+    go msgs s
 
 /-- `MsgCancelProposal` (SDK): charge, refund the rest, delete the proposal -/
 def cancel (s : State) (pid : Nat) (who : Addr) : Except String State :=
